@@ -116,6 +116,8 @@ class FnTranslator:
         self.name = fdecl["name"]
         self.rng_param = None
         self.rng_used = 0
+        self.rng_prim = None
+        self.choice = None
         self.literals = []
         self.structs = structs if structs is not None else {}      # struct name -> {member: kind} (insertion ordered)
         self.partial_fns = partial_fns if partial_fns is not None else set()
@@ -331,10 +333,13 @@ class FnTranslator:
                 return "Num.inf"
             if fn in LIBM:
                 return "(%s %s)" % (LIBM[fn], " ".join(self.atom(a) for a in args))
-            if fn == "esl_rnd_UniformPositive":
+            if fn in RNG_PRIMS:
+                # the one variate drawn from the generator becomes the parameter `u`; which primitive (and with which
+                # arguments) yields it is recorded for the docstring and the harness
                 self.rng_used += 1
                 if self.rng_used > 1:
                     raise Unsupported("%s: more than one deviate drawn" % self.where(n))
+                self.rng_prim = fn
                 return "u"
             if fn in self.known:
                 if fn in self.partial_fns:
@@ -554,6 +559,14 @@ class FnTranslator:
                 return [pad + "let %s := %s.set %s %s" % (arr, arr, idx, self.wrap(rhs))] + self.block(rest, ind, scope)
             if lhs["kind"] != "DeclRefExpr":
                 raise Unsupported("%s: statement %s" % (self.where(s), op))
+            rc = self.strip(rhs_node)
+            if op == "=" and rc["kind"] == "CallExpr" and self.callee(rc) == "esl_rnd_DChoose" \
+                    and self.vkind.get(lhs["referencedDecl"]["name"]) == "int":
+                # `k = esl_rnd_DChoose(r, p, K)`: the component the generator chooses becomes a parameter `k : Nat`
+                if self.choice is not None:
+                    raise Unsupported("%s: more than one esl_rnd_DChoose" % self.where(s))
+                self.choice = lhs["referencedDecl"]["name"]
+                return self.block(rest, ind, define(self.choice))
             v = self.expr(lhs)
             rhs = self.expr(rhs_node)
             if op != "=":
@@ -689,6 +702,8 @@ class FnTranslator:
             r.get("inner") and self.strip(r["inner"][0])["kind"] == "CallExpr" and self.callee(self.strip(r["inner"][0])) in self.partial_fns
             for r in self.collect(body, "ReturnStmt"))
         lines = self.block(self.flatten(body), 1, [p for p in params])
+        if self.choice is not None:
+            params.append(self.choice)
         if self.rng_param is not None and self.rng_used != 1:
             raise Unsupported("%s: generator parameter but %d deviates drawn" % (self.where(), self.rng_used))
         for p in params:
@@ -696,12 +711,18 @@ class FnTranslator:
                 raise Unsupported("%s: void* parameter %s is never given a type" % (self.where(), p))
         kinds = [self.vkind[p] for p in params]
         line = self.f.get("loc", {}).get("line", "?")
+        note = ""
+        if self.rng_prim and self.rng_prim != "esl_rnd_UniformPositive":
+            note += "; `u` = the variate `%s(r, …)` yields" % self.rng_prim
+        if self.choice is not None:
+            note += "; `%s` = the component `esl_rnd_DChoose(r, …)` yields" % self.ident(self.choice)
+        self.note = note
         if all(kd in ("d", "rng") for kd in kinds) and not self.partial:       # the round-1 form, unchanged
-            head = "/-- `%s` (%s:%s) -/\ndef %s (%s : α) : α :=" % (
-                self.name, self.cfile, line, self.name, " ".join("u" if self.vkind[p] == "rng" else self.ident(p) for p in params))
+            head = "/-- `%s` (%s:%s)%s -/\ndef %s (%s : α) : α :=" % (
+                self.name, self.cfile, line, note, self.name, " ".join("u" if self.vkind[p] == "rng" else self.ident(p) for p in params))
         else:
-            head = "/-- `%s` (%s:%s) -/\ndef %s %s%s : %s :=" % (
-                self.name, self.cfile, line, self.name, "(fuel : Nat) " if self.partial else "", self.binders(params),
+            head = "/-- `%s` (%s:%s)%s -/\ndef %s %s%s : %s :=" % (
+                self.name, self.cfile, line, note, self.name, "(fuel : Nat) " if self.partial else "", self.binders(params),
                 "Option α" if self.partial else "α")
         return "".join(h + "\n" for h in self.helpers) + head + "\n" + "\n".join(lines) + "\n", kinds
 
@@ -714,6 +735,8 @@ class FnTranslator:
                 out.extend(self.collect(c, kind))
         return out
 
+
+RNG_PRIMS = ("esl_rnd_UniformPositive", "esl_rnd_Gamma", "esl_rnd_Gaussian")
 
 HEADER = """import EaselModel.Dist.Num
 /-! GENERATED on every run by translate/c2lean.py from the working tree's C sources — do not edit.
@@ -735,7 +758,7 @@ def translate_all(src_dir, plan):
     structs = {}
     partial_fns = set()
     chunks = []
-    info = {"functions": [], "literals": set()}
+    info = {"functions": [], "literals": set(), "rng_prim": {}}
     for cfile, filt, names in plan:
         docs = clang_docs(src_dir, cfile, filt)
         resolve_files(docs, cfile)
@@ -754,6 +777,8 @@ def translate_all(src_dir, plan):
             chunks.append(text)
             info["functions"].append(nm)
             info["literals"].update(t.literals)
+            if t.rng_prim or t.choice:
+                info["rng_prim"][nm] = [x for x in (("esl_rnd_DChoose" if t.choice else None), t.rng_prim) if x]
     info["literals"] = sorted(info["literals"])
     info["arity"] = {nm: len(known[nm]) for nm in info["functions"]}
     info["rng"] = {nm: "rng" in known[nm] for nm in info["functions"]}
@@ -807,18 +832,18 @@ FAMILIES = [
     # families on the special functions of esl_stats.c (function symbols of the class); their bracketing + bisection
     # inverses (do-while loops) recurse on fuel
     ("esl_stretchexp.c", "esl_sxp_", ["esl_sxp_pdf", "esl_sxp_logpdf", "esl_sxp_cdf", "esl_sxp_logcdf", "esl_sxp_surv",
-                                      "esl_sxp_logsurv", "esl_sxp_invcdf"] + ["esl_sxp_" + g for g in GEN4]),
+                                      "esl_sxp_logsurv", "esl_sxp_invcdf", "esl_sxp_Sample"] + ["esl_sxp_" + g for g in GEN4]),
     ("esl_gamma.c", "esl_gam_", ["esl_gam_pdf", "esl_gam_logpdf", "esl_gam_cdf", "esl_gam_logcdf", "esl_gam_surv",
                                  "esl_gam_logsurv", "esl_gam_invcdf"] + ["esl_gam_" + g for g in GEN4]),
     ("esl_normal.c", "esl_normal_", ["esl_normal_pdf", "esl_normal_logpdf", "esl_normal_cdf", "esl_normal_surv"] +
      ["esl_normal_" + g for g in GEN4[:3]]),
-    ("esl_lognormal.c", "esl_lognormal_", ["esl_lognormal_pdf", "esl_lognormal_logpdf"]),
+    ("esl_lognormal.c", "esl_lognormal_", ["esl_lognormal_pdf", "esl_lognormal_logpdf", "esl_lognormal_Sample"]),
     # the mixtures: counted loops over the components (folds), esl_vec_DLogSum for the log versions, bisection inverses
     ("esl_vectorops.c", "esl_vec_D", ["esl_vec_DMax", "esl_vec_DMin", "esl_vec_DLogSum"]),
     ("esl_hyperexp.c", "esl_hxp_", ["esl_hxp_pdf", "esl_hxp_logpdf", "esl_hxp_cdf", "esl_hxp_logcdf", "esl_hxp_surv",
-                                    "esl_hxp_logsurv", "esl_hxp_invcdf"] + ["esl_hxp_" + g for g in GEN4]),
+                                    "esl_hxp_logsurv", "esl_hxp_invcdf", "esl_hxp_Sample"] + ["esl_hxp_" + g for g in GEN4]),
     ("esl_mixgev.c", "esl_mixgev_", ["esl_mixgev_pdf", "esl_mixgev_logpdf", "esl_mixgev_cdf", "esl_mixgev_logcdf",
-                                     "esl_mixgev_surv", "esl_mixgev_logsurv", "esl_mixgev_invcdf"] +
+                                     "esl_mixgev_surv", "esl_mixgev_logsurv", "esl_mixgev_invcdf", "esl_mixgev_Sample"] +
      ["esl_mixgev_" + g for g in GEN4]),
 ]
 
